@@ -53,8 +53,14 @@ def gen_cases(ctx, n):
             k = r.randrange(0, rem + 1)
             ks.append(k)
             rem -= k
+        if r.random() < 0.5:
+            # empty pieces anywhere (the harness passes those at odd positions as (NULL, 0), the others as (pointer, 0))
+            for _ in range(r.choice([1, 1, 2, 3])):
+                ks.insert(r.randrange(len(ks) + 1), 0)
         tags = {"len=%s" % ("0" if ln == 0 else "1" if ln == 1 else "2-15" if ln < 16 else "16-255" if ln < 256 else "256+"),
                 "pieces=%d" % min(len(ks), 4)}
+        if 0 in ks:
+            tags.add("empty-piece")
         out.append(_mk(c, bs, ks, tags))
     return out
 
